@@ -1,10 +1,13 @@
 (* C06.v — "one fresh top Via, Record-Route by policy" (property C06), and the general facts
-   about header look-up / update / insertion that C13.v and C03.v reuse.
+   about header look-up / update / insertion and about the per-message pipeline that C13.v and
+   C03.v reuse (sel, frame, send_message_shape, send_to_backend_shape, process_message_request).
 
-   Main statements: C06_via_pushed, C06_via_position, C06_backend_decorates, C06_request_decorates,
-   C06_not_learned_untouched, C06_rr_policy, C06_rr_position, own_record_route_text,
-   C06_branch, branch_of_inj, branch_of_cookie, C06_branches_distinct, C06_learning,
-   C06_learning_response, learn_lookup, learn_keeps_iff. *)
+   Main statements: C06_via_pushed, C06_via_position, C06_branch, C06_rr_policy, C06_rr_position,
+   C06_rr_flat, own_record_route_text (+ _noport), C06_decorate_learned, C06_not_learned_untouched,
+   C06_backend_decorates, handle_message_request (where [decorate] is applied), branch_of_inj,
+   branch_of_cookie, C06_branches_distinct, run_events_branch, learn_lookup, learn_keeps_iff,
+   C06_learning, C06_learning_response.  The end-to-end statement C06_relayed_request (needs the
+   hop choice) is in C03.v. *)
 From Coq Require Import List Ascii String ZArith Bool Arith Lia.
 From Model Require Import Bytes BytesLemmas Uri Hdr Message Msg Rx Glob StaticRoute RoundRobin Pins Proxy RunProxy.
 From Model.proofs Require C05.
@@ -1291,3 +1294,146 @@ Theorem C06_learning_response : forall e peer peer_port from rs tcp m0 x x',
   is_request m0 = false ->
   process_message e peer peer_port from rs tcp m0 x = Ok x' -> x_learned x' = x_learned x.
 Proof. intros e peer pp from rs tcp m0 x x' R H. rewrite (C06_learning _ _ _ _ _ _ _ _ _ H), R. reflexivity. Qed.
+
+(* ================================================================== concrete instances *)
+(* (shared with C13.v and C03.v) messages are written line by line; LF line ends are accepted *)
+Definition lines (ls : list string) : bytes := flat_map (fun s => s2b s ++ [LF]) ls.
+Definition dummy_msg : message := {| m_start := SResp [] 0 []; m_headers := []; m_body := [] |}.
+Definition msg_of (ls : list string) : message :=
+  match parse_message (lines ls) with Ok (m, _) => m | _ => dummy_msg end.
+
+Definition ex_lc (must : bool) : listen_cfg :=
+  {| lc_addr := s2b "10.0.0.1"; lc_udp := 5060; lc_tcp := 5060;
+     lc_backends := [s2b "10.0.1.1:5080"; s2b "10.0.1.2:5080"]; lc_dynamic := false;
+     lc_no_received := false; lc_def_route := false; lc_must_rr := must |}.
+(* services: a literal host, a regular expression (matches only as an expression), user@host, a
+   urn; static routes: exact, wildcard, optionally default; two host-table names *)
+Definition ex_cfg (keep with_default must : bool) : cfg :=
+  {| c_name := s2b "svc.example.com, room.+@conf.example.com, alice@users.example.com, urn:service:sos";
+     c_keep_next_hop := keep; c_dialog_timeout := 3600;
+     c_routes := [(s2b "udp", (s2b "exact.example.com", s2b "10.0.2.1:5070"));
+                  (s2b "tcp", (s2b "*.wild.example.com", s2b "10.0.2.2"))] ++
+                 (if with_default then [(s2b "udp", (s2b "default", s2b "10.0.2.3:5090"))] else []);
+     c_hosts := [(s2b "proxy.example.com", s2b "10.0.0.1"); (s2b "next.example.com", s2b "10.0.0.9")];
+     c_listens := [ex_lc must] |}.
+Definition ex_from : stransport := {| t_kind := KUdp; t_addr := s2b "10.0.0.1"; t_port := 5060 |}.
+Definition ex_env (fx : fixes) (c : cfg) (n : nat) : env :=
+  mk_env fx c (item_rs_of (fx_wiring fx)) 0 (ex_lc (lc_must_rr (ex_lc false))) (Z.of_nat n * ms) (branch_of n).
+
+Definition req (ruri : string) (pre routes : list string) (to : string) (extra : list string) : list string :=
+  [String.append "INVITE " (String.append ruri " SIP/2.0")] ++ pre ++
+  ["Via: SIP/2.0/UDP client.example.com:5060;branch=z9hG4bKabc"%string; "Via: SIP/2.0/TCP 10.0.0.7;branch=z9hG4bKdef"%string]
+  ++ routes ++
+  [String.append "To: " to; "From: <sip:carol@example.com>;tag=f1"%string; "Call-ID: c1"%string;
+   "CSeq: 1 INVITE"%string] ++ extra ++ ["Content-Length: 0"%string; ""%string].
+
+(* what a datagram from 10.0.0.5:5060 produces in the initial state: destinations and texts *)
+Definition run1 (fx : fixes) (c : cfg) (tcp_peers : list (bytes * Z)) (ls : list string) : list (dest * string) :=
+  match proxy_step fx c 0 (branch_of 0) (init_state c 0 tcp_peers) (EvUdp 0 (s2b "10.0.0.5") 5060 (lines ls)) with
+  | Ok (_, outs) => map (fun o => (fst o, string_of_list_ascii (snd o))) outs
+  | _ => [(DConn 99, "error"%string)]
+  end.
+
+(* ---- f: a Via is pushed before the first Via header, here at position 1 ---- *)
+Definition ex_m1 : message :=
+  msg_of (req "sip:bob@svc.example.com" ["Max-Forwards: 70"%string] [] "<sip:bob@svc.example.com>" []).
+Example ex_via_pushed :
+  let e := ex_env all_fixed (ex_cfg false true false) 7 in
+  via_pos ex_m1 = 1%nat /\
+  map via_param_print (all_vias (m_headers (px_add_via e ex_from ex_m1))) =
+    [s2b "SIP/2.0/UDP 10.0.0.1:5060;branch=z9hG4bK@@@@@@000007";
+     s2b "SIP/2.0/UDP client.example.com:5060;branch=z9hG4bKabc"; s2b "SIP/2.0/TCP 10.0.0.7;branch=z9hG4bKdef"] /\
+  map h_name (m_headers (px_add_via e ex_from ex_m1)) =
+    map s2b ["Max-Forwards"; "Via"; "Via"; "Via"; "To"; "From"; "Call-ID"; "CSeq"; "Content-Length"]%string.
+Proof. vm_compute. repeat split. Qed.
+
+(* ---- g: Record-Route present / absent x must on / off ---- *)
+Definition ex_m_rr : message :=
+  msg_of (req "sip:bob@svc.example.com" ["Max-Forwards: 70"%string] [] "<sip:bob@svc.example.com>"
+              ["Record-Route: <sip:10.0.0.5;lr>, <sip:edge.example.com:5080;lr>"%string]).
+Example ex_rr_text : route_print [own_record_route ex_from] = s2b "<sip:10.0.0.1:5060;lr>".
+Proof. vm_compute. reflexivity. Qed.
+Example ex_rr_present_must_off :
+  map route_param_print (all_rr (m_headers (px_add_record_route false ex_from ex_m_rr))) =
+  [s2b "<sip:10.0.0.1:5060;lr>"; s2b "<sip:10.0.0.5;lr>"; s2b " <sip:edge.example.com:5080;lr>"] /\
+  map h_name (m_headers (px_add_record_route false ex_from ex_m_rr)) =
+    map s2b ["Max-Forwards"; "Via"; "Via"; "To"; "From"; "Call-ID"; "CSeq"; "Record-Route"; "Record-Route"; "Content-Length"]%string.
+Proof. vm_compute. split; reflexivity. Qed.
+Example ex_rr_present_must_on :
+  map route_param_print (all_rr (m_headers (px_add_record_route true ex_from ex_m_rr))) =
+  [s2b "<sip:10.0.0.1:5060;lr>"; s2b "<sip:10.0.0.5;lr>"; s2b " <sip:edge.example.com:5080;lr>"].
+Proof. vm_compute. reflexivity. Qed.
+Example ex_rr_absent_must_on :
+  map route_param_print (all_rr (m_headers (px_add_record_route true ex_from ex_m1))) = [s2b "<sip:10.0.0.1:5060;lr>"] /\
+  map h_name (m_headers (px_add_record_route true ex_from ex_m1)) =
+    map s2b ["Record-Route"; "Max-Forwards"; "Via"; "Via"; "To"; "From"; "Call-ID"; "CSeq"; "Content-Length"]%string.
+Proof. vm_compute. split; reflexivity. Qed.
+Example ex_rr_absent_must_off : px_add_record_route false ex_from ex_m1 = ex_m1.
+Proof. vm_compute. reflexivity. Qed.
+
+(* ---- h ---- *)
+Example ex_branch : branch_of 3 = s2b "z9hG4bK@@@@@@000003" /\ branch_of 1234 = s2b "z9hG4bK@@@@@@001234".
+Proof. vm_compute. split; reflexivity. Qed.
+
+(* ---- i: the peer and both Via hosts are learned, in this order ---- *)
+Example ex_learning :
+  match proxy_step all_fixed (ex_cfg false true false) 0 (branch_of 0) (init_state (ex_cfg false true false) 0 [])
+                   (EvUdp 0 (s2b "10.0.0.5") 5060
+                      (lines (req "sip:bob@svc.example.com" [] [] "<sip:bob@svc.example.com>" []))) with
+  | Ok (st, _) => st_learned st = [(s2b "10.0.0.5", ex_from); (s2b "client.example.com", ex_from); (s2b "10.0.0.7", ex_from)]
+  | _ => False
+  end.
+Proof. vm_compute. reflexivity. Qed.
+
+(* ---- learned / not learned next hop, end to end ---- *)
+(* the Route names the sender itself (learned from this very request, through the UDP listener):
+   one Via of the listener on top, Record-Route of the listener ahead of the received one *)
+Example ex_relay_learned :
+  run1 all_fixed (ex_cfg false true false) []
+       (req "sip:bob@elsewhere.example" [] ["Route: <sip:10.0.0.5:5062;lr>"%string] "<sip:bob@elsewhere.example>"
+            ["Record-Route: <sip:10.0.0.5;lr>"%string]) =
+  [(DUdp (s2b "10.0.0.5") 5062,
+    String.concat (String (ascii_of_nat 13) (String (ascii_of_nat 10) EmptyString))
+    ["INVITE sip:bob@elsewhere.example SIP/2.0";
+     "Via: SIP/2.0/UDP 10.0.0.1:5060;branch=z9hG4bK@@@@@@000000";
+     "Via: SIP/2.0/UDP client.example.com:5060;branch=z9hG4bKabc;received=10.0.0.5";
+     "Via: SIP/2.0/TCP 10.0.0.7;branch=z9hG4bKdef";
+     "To: <sip:bob@elsewhere.example>"; "From: <sip:carol@example.com>;tag=f1"; "Call-ID: c1"; "CSeq: 1 INVITE";
+     "Record-Route: <sip:10.0.0.1:5060;lr>"; "Record-Route: <sip:10.0.0.5;lr>"; "Content-Length: 0"; ""; ""]%string)].
+Proof. vm_compute. reflexivity. Qed.
+(* the next hop 10.0.0.9 was never heard of: no Via, no Record-Route *)
+Example ex_relay_not_learned :
+  run1 all_fixed (ex_cfg false true true) []
+       (req "sip:bob@elsewhere.example" [] ["Route: <sip:10.0.0.9:5062;lr>"%string] "<sip:bob@elsewhere.example>"
+            ["Record-Route: <sip:10.0.0.5;lr>"%string]) =
+  [(DUdp (s2b "10.0.0.9") 5062,
+    String.concat (String (ascii_of_nat 13) (String (ascii_of_nat 10) EmptyString))
+    ["INVITE sip:bob@elsewhere.example SIP/2.0";
+     "Via: SIP/2.0/UDP client.example.com:5060;branch=z9hG4bKabc;received=10.0.0.5";
+     "Via: SIP/2.0/TCP 10.0.0.7;branch=z9hG4bKdef";
+     "To: <sip:bob@elsewhere.example>"; "From: <sip:carol@example.com>;tag=f1"; "Call-ID: c1"; "CSeq: 1 INVITE";
+     "Record-Route: <sip:10.0.0.5;lr>"; "Content-Length: 0"; ""; ""]%string)].
+Proof. vm_compute. reflexivity. Qed.
+
+Print Assumptions C06_via_pushed.
+Print Assumptions C06_via_position.
+Print Assumptions C06_branch.
+Print Assumptions C06_rr_policy.
+Print Assumptions C06_rr_position.
+Print Assumptions C06_rr_flat.
+Print Assumptions own_record_route_text.
+Print Assumptions own_record_route_text_noport.
+Print Assumptions C06_decorate_learned.
+Print Assumptions C06_not_learned_untouched.
+Print Assumptions C06_backend_decorates.
+Print Assumptions branch_of_inj.
+Print Assumptions branch_of_cookie.
+Print Assumptions C06_branches_distinct.
+Print Assumptions learn_lookup.
+Print Assumptions learn_keeps_iff.
+Print Assumptions C06_learning.
+Print Assumptions C06_learning_response.
+Print Assumptions process_message_request.
+Print Assumptions handle_message_request.
+Print Assumptions send_message_shape.
+Print Assumptions send_to_backend_shape.
